@@ -2,6 +2,7 @@
 
 Only the part of C16 that is visible in the shape of `get_route` and its helpers is decided here (see EXPLANATION)."""
 from engine import *
+import provenance
 import re as _re
 
 R = 'lightning::routing::router::'
@@ -692,4 +693,5 @@ RULES = [
 	('16.h', 'capacity shared between paths is counted jointly; superfluous paths and overpayment are removed', r16h),
 	('16.i', 'the RouteHops handed out take SCID, fee, CLTV delta and features from the chosen candidates', r16i),
 	('16.b', 'every relaxation step is behind the previously-failed, remaining-capacity, self-channel and path-htlc-minimum tests', r16b),
+	('16.p', 'same-name field transfer: structs carrying this property\'s quantities are filled from the same-named field or a reviewed alias (rules/provenance.py)', lambda F: provenance.for_property(F, 'C16', '16.p')),
 ]
